@@ -284,7 +284,7 @@ pub fn bucket_strategy() -> impl Strategy<Value = C08Case> {
         ],
     )
         .prop_map(|(txs, mods)| C08Case {
-            build: HistoryCase { cfg: Cfg::default(), fresh_handles: false, txs },
+            build: HistoryCase { cfg: Cfg::default(), fresh_handles: false, txs, dance: 0 },
             mods,
             query: None,
         })
